@@ -384,7 +384,7 @@ pub fn run(args: &Args, r: &mut Report) {
     r.assume("how far the installer may run ahead of the observer between two progress values is not part of the statement");
     let miri = args.layer == "miri";
     // ---- (a)
-    let n = if miri { 30 } else { args.budget(20_000, 1_000_000) };
+    let n = if miri { 30 } else { args.budget(200_000, 2_000_000) };
     for i in 0..n {
         if args.skip(i) {
             continue;
@@ -419,7 +419,7 @@ pub fn run(args: &Args, r: &mut Report) {
         }
     }
     // ---- (b)
-    let nb = if miri { 3 } else { args.budget(3_000, 100_000) };
+    let nb = if miri { 3 } else { args.budget(30_000, 300_000) };
     for j in 0..nb {
         let i = 30_000_000 + j;
         if args.skip(i) {
